@@ -187,8 +187,14 @@ class Records:
     def observe_build(self, graph, events, world_after=None):
         """update from one invocation's START/FINISH events"""
         starts = {}
+        last_lock = None
         for ev in events:
+            if ev.get("e") == "W" and ev["p"].endswith(".ninja_lock"):
+                last_lock = ev["t"]
             if ev.get("e") == "S":
+                ev = dict(ev)
+                if last_lock is not None:
+                    ev["t"] = last_lock       # the recorded start time is the lock file's mtime
                 starts[ev["o"]] = ev
             elif ev.get("e") == "F" and ev.get("status") == 0:
                 st = graph.producer.get(ev["o"])
